@@ -292,7 +292,7 @@ Lemma neuron_conn_wf k i : wf_kb k -> is_neuron (okind (getobj k i)) ->
 Proof.
   intros Hwf Hn. assert (Hi : (i < length k)%nat).
   { apply getobj_lt. intro E. rewrite E in Hn. exact Hn. }
-  destruct (Hwf i Hi) as (_ & _ & [_ Ha] & Hk). unfold conn_wf.
+  destruct (Hwf i Hi) as (_ & _ & [_ Ha] & Hk & _). unfold conn_wf.
   destruct (okind (getobj k i)) as [| |c| |]; cbn [is_neuron] in Hn; try contradiction; cbn [conn_of].
   - destruct c; destruct Hk as (H1 & H2 & H3); repeat split; try assumption; try congruence; try discriminate.
   - destruct Hk as (H1 & H2 & H3). repeat split; try assumption; discriminate.
